@@ -30,8 +30,7 @@ MANIFEST = {
     "note": "Trusted: Lean kernel, translator gen_negotiate.py, the lab (in-memory socket pair), python-ecdsa/X.509 parsing "
             "(exercised, not modelled). Not modelled in Lean: virtual_hosts, TACK, NPN, resumption (oracle only: session-ID "
             "resumption under changed policies), session tickets / TLS 1.3 PSK resumption (C13), delegated credentials, "
-            "certificate compression, heartbeat, ML-KEM/ML-DSA (libraries absent), maxVersion=(3,0) clients, FALLBACK_SCSV, "
-            "the size of the second ClientHello after HelloRetryRequest against a small server record_size_limit.",
+            "certificate compression, heartbeat, ML-KEM/ML-DSA (libraries absent), maxVersion=(3,0) clients, FALLBACK_SCSV.",
     "technique": "Lean 4 proofs over an executable model; differential correspondence model vs live handshakes; independent view/policy oracle",
 }
 
@@ -1127,11 +1126,6 @@ def evaluate(ctx, case, pending):
            case["srp_bits"], case["srp_user_known"], case.get("fault"))
     ctx.case(key=key, nontrivial=True,
              sample=dict(jsonable_case(case), outcome=fmt_outcome(out)) if ctx.evaluations % 211 == 0 else None)
-    if out == ("alert", "server", "record_overflow") and wire_facts(cap)["hrr"] and ss.record_size_limit:
-        # the server applies its own record_size_limit to the second ClientHello, whose size the model
-        # does not know (the handshake fails with an alert: inside the property)
-        ctx.count("unmodelled:record_overflow on the ClientHello after HelloRetryRequest")
-        return
     if case.get("fault"):
         # the model describes an honest server; here only the oracle speaks
         ctx.count("faulty-server:%s -> %s" % (case["fault"], out[0] if out[0] == "ok" else " ".join(str(x) for x in out[:3])))
@@ -1167,6 +1161,13 @@ def run(ctx):
                        "suite semantics are read from the registered IETF names (translate/gen_negotiate.py:parse_name)",
                        "ecdhCurve/serverSigAlg/dhGroupSize are compared only where both endpoints record a value "
                        "(a TLS <= 1.2 server never sets them); the wire value is checked against both policies instead"]
+    ctx.extra["decisions"] = [
+        "serverSigAlg / ecdhCurve / dhGroupSize: a TLS <= 1.2 server never assigns these attributes (only the client and the "
+        "TLS 1.3 server do); None is read as 'not exposed', the two ends are compared only where both hold a value, and the "
+        "value seen on the wire (ServerKeyExchange / key_share / CertificateVerify) is checked against both policies instead",
+        "an exception that escapes a handshake call without an alert being sent violates 'otherwise the handshake fails with "
+        "an alert' (keys c03:fails-without-alert:<side>:<exception>:<function>)",
+        "faulty-server scenarios judge only what the client accepted (keys c03:faulty-server:*)"]
     import time
     budget = ctx.pick(150, 1300)
     t0 = time.time()
